@@ -3,7 +3,8 @@
    law is used, so they hold verbatim for Z, Q, R and for IEEE floats with a fixed summation order);
    the centring lemmas hold for every Op satisfying ring_theory. *)
 From Coq Require Import List Arith ZArith Ring Permutation Reals Lia.
-From TLV Require Import Base.Shape Base.PyList Base.Tensor Base.Ops Model.Base Model.Regress Proofs.RegressProofs Proofs.RegressProofsPlsr Proofs.RegressProofsR.
+From TLV Require Import Base.Shape Base.PyList Base.Tensor Base.Ops Model.Base Model.Regress Proofs.RegressProofs Proofs.RegressProofsPlsr Proofs.RegressProofsR Proofs.RegressProofsLink.
+From TLV Require Model.Factorized Proofs.FactorizedProofs5.
 Import ListNotations.
 
 
@@ -235,6 +236,43 @@ Theorem C19_tucker_fit_predict : forall (F : Type) (Op : fops F)
 Proof. exact @tucker_fit_predict. Qed.
 Print Assumptions C19_tucker_fit_predict.
 
+(* the same with the ridge block updates of CPRegressor.fit modelled concretely (cp_sweep: design matrices phi, phi'phi + reg I,
+   phi'y, T.solve a black box), instance of C19_cp_fit_predict *)
+Corollary C19_cp_concrete_fit_predict : forall (F : Type) (Op : fops F)
+  (solve : nat -> tensor F -> tensor F -> tensor F) (reg : F) (Xtr ytr : tensor F) (so : list nat) (R : nat)
+  (nrm : tensor F -> F) (small : F -> F -> bool) (n_iter : nat) (w0 : tensor F * list (tensor F)) (st : reg_stored)
+  (X : tensor F) (n : nat) (sx so' : list nat),
+  reg_fit (cp_concrete_sweep Op solve reg Xtr ytr so R) (cp_rebuild Op) nrm small n_iter w0 = Ok st ->
+  wf X -> shape X = n :: sx -> sx <> [] -> factor_rows (snd (r_blocks st)) = sx ++ so' -> 0 < n -> 0 < prod so' ->
+  exists P, predict_cp Op (r_weight_tensor st) X = Ok P /\ shape P = n :: so' /\
+    forall i o, i < n -> inb so' o ->
+      tget Op P (i :: o) = fsum_idx Op sx (fun J => fmul Op (tget Op X (i :: J))
+        (fsumn Op (nth 0 (shape (fst (r_blocks st))) 0)
+               (fun r => fmul Op (tget Op (fst (r_blocks st)) [r]) (cp_coeff Op (snd (r_blocks st)) (J ++ o) r)))).
+Proof. exact @cp_concrete_fit_predict. Qed.
+Print Assumptions C19_cp_concrete_fit_predict.
+
+(* ---- the entrywise reconstructions of this model ARE the code-level cp_to_tensor / tucker_to_tensor (the models of
+   tensorly/cp_tensor.py and tensorly/tucker_tensor.py of property C03: validation, khatri_rao + dot + fold, resp. the chain of
+   mode products), on every input those accept; commutative ring ---- *)
+Theorem C19_cp_to_tensor_code_level : forall (F : Type) (Op : fops F), is_ring Op ->
+  forall (w : tensor F) (fs : list (tensor F)) (shp : list nat) (R : nat),
+  Factorized.validate_cp (Some w) fs = Ok (shp, R) -> Forall (fun f => ndim f = 2) fs ->
+  exists t, Factorized.cp_to_tensor Op (Some w) fs None = Ok t /\
+    shape t = shape (cp_to_tensor Op w fs) /\
+    forall idx, inb (shape t) idx -> get (f0 Op) t idx = tget Op (cp_to_tensor Op w fs) idx.
+Proof. exact @cp_to_tensor_link. Qed.
+Print Assumptions C19_cp_to_tensor_code_level.
+
+Theorem C19_tucker_to_tensor_code_level : forall (F : Type) (Op : fops F), is_ring Op ->
+  forall (core : tensor F) (fs : list (tensor F)) (ns : list nat),
+  FactorizedProofs5.tk_shapes F 0 None fs ns (shape core) -> wf core -> 0 < prod (shape core) -> 0 < prod ns ->
+  exists t, Factorized.tucker_to_tensor Op core fs None false = Ok t /\
+    shape t = shape (tucker_to_tensor Op core fs) /\
+    forall idx, inb (shape t) idx -> get (f0 Op) t idx = tget Op (tucker_to_tensor Op core fs) idx.
+Proof. exact @tucker_to_tensor_link. Qed.
+Print Assumptions C19_tucker_to_tensor_code_level.
+
 (* non-vacuity: Z is an instance; a 2-sample 2x2 problem with a vector-valued target *)
 Example C19_Z_is_ring : is_ring Zops.
 Proof. exact Zth. Qed.
@@ -285,3 +323,12 @@ Example C19_reg_fit_nonvacuous :
   (exists st, reg_fit (F:=Z) (fun w : nat => S w) (fun w => mk [1] [Z.of_nat w]) (fun _ => 0%Z) (fun _ _ => true) 5 0 = Ok st /\ r_blocks st = 3) /\
   reg_fit (F:=Z) (fun w : nat => S w) (fun w => mk [1] [Z.of_nat w]) (fun _ => 0%Z) (fun _ _ => true) 0 0 = Err.
 Proof. split; [eexists; split; vm_compute; reflexivity | reflexivity]. Qed.
+
+(* the code-level models accept the regressors' blocks: a rank-2 CP weight with ones as weights, a Tucker weight *)
+Example C19_code_level_nonvacuous :
+  let w := mk [2] [1; 1]%Z in
+  let fs := [mk [2; 2] [1; 2; 3; 4]%Z; mk [3; 2] [1; 0; -1; 2; 0; 5]%Z] in
+  Factorized.validate_cp (Some w) fs = Ok ([2; 3], 2) /\ Forall (fun f => ndim f = 2) fs /\
+  Factorized.cp_to_tensor Zops (Some w) fs None = Ok (cp_to_tensor Zops w fs) /\
+  Factorized.tucker_to_tensor Zops (mk [2; 2] [1; 0; 2; -1]%Z) fs None false = Ok (tucker_to_tensor Zops (mk [2; 2] [1; 0; 2; -1]%Z) fs).
+Proof. cbv zeta. split; [vm_compute; reflexivity|]. split; [repeat constructor|]. split; vm_compute; reflexivity. Qed.
